@@ -166,7 +166,9 @@ func genAuth(rng *rand.Rand, e *entry, n int, invalid bool) {
 		u = []string{"me@example.com", "a b", "DOMAIN\\user", "u+tag", "<token>"}[rng.IntN(5)]
 	default:
 		e.AuthClass = "pw-space-nl"
-		p = " lead and trail \n" + p + " "
+		// white space of every kind at either end is part of the password (NUL bytes at the ends are not: the
+		// Docker convention, which the code follows, strips them)
+		p = []string{" ", "\n", "\t", "", "\r\n"}[rng.IntN(5)] + "lead and trail \n" + p + []string{" ", "\n", "\r\n", "\t", "\n\n", " \n"}[rng.IntN(6)]
 	}
 	e.AuthValid, e.AuthUser, e.AuthPass = true, u, p
 	e.Auth = b64(u + ":" + p)
